@@ -94,11 +94,32 @@ def install_spies(ns, ctx, rec, fast_window=float("inf"), schedule=None, rng=Non
     co.Continuum.measure_best_window_size = mbws
     rec["executors"] = []
     co.ThreadPoolExecutor = stubs.DeferredExecutor.make(rng=rng, schedule=schedule, record=rec["executors"])
+    # collecting results "as they complete" is a schedule point too: the completion order is any permutation
+    undo_completion = stubs.install_completion_stubs(co, schedule)
 
     def undo():
         for k, v in saved.items():
             setattr(co.Continuum, k, v)
         co.ThreadPoolExecutor = saved_ex
+        undo_completion()
+    return undo
+
+
+def verbose_logging():
+    """the root logger at INFO, as the command line's --verbose (or an application's own logging set-up) puts it; records go to a
+    null handler.  Returns an undo function."""
+    import logging
+    root = logging.getLogger()
+    saved = (root.level, logging.root.manager.disable)
+    h = logging.NullHandler()
+    root.addHandler(h)
+    logging.disable(logging.NOTSET)
+    root.setLevel(logging.INFO)
+
+    def undo():
+        root.setLevel(saved[0])
+        logging.disable(saved[1])
+        root.removeHandler(h)
     return undo
 
 
@@ -142,7 +163,12 @@ def harness(cfg, ns, schedule_factory=None):
         ns.np.ceil_max = n + cfg.get("extra", 0)
         fast_window = float("inf") if mode != "fast-2" else 2
         sched = schedule_factory(ctx, rec) if schedule_factory else None
-        undo = install_spies(ns, ctx, rec, fast_window=fast_window, schedule=sched, rng=rng)
+        undo_spies = install_spies(ns, ctx, rec, fast_window=fast_window, schedule=sched, rng=rng)
+        undo_log = verbose_logging() if cfg.get("verbose") else (lambda: None)
+
+        def undo():
+            undo_spies()
+            undo_log()
         try:
             c = co.Continuum()
             for a in ("a", "b", "c"):
@@ -162,7 +188,7 @@ def harness(cfg, ns, schedule_factory=None):
             gt = ["a", "c"] if cfg.get("gt") else None
 
             def rz(m):
-                return dict(kind="gamma", mode=mode, n=n, prec=(common.frs(mval(m, p)) if isinstance(p, SymNum) else p), gt=gt,
+                return dict(kind="gamma", mode=mode, n=n, verbose=bool(cfg.get("verbose")), prec=(common.frs(mval(m, p)) if isinstance(p, SymNum) else p), gt=gt,
                             disorders=[common.frs(mval(m, A.disorder)) for A in rec["alignments"]],
                             std=[common.frs(mval(m, sv)) for _, sv in ns.np.std_calls])
             ctx.notes["realize"] = rz
